@@ -25,6 +25,9 @@ pub struct Violation {
 
 /// Timing slack (DESIGN.md 4.1): two settle ticks + timer granularity.
 pub const SLACK_MS: u64 = 5;
+/// A funded set must have led to a payment attempt this long after the last
+/// thing the plugin was waiting for (C12 readiness rule).
+pub const READINESS_GRACE_MS: u64 = 1000;
 
 /// Classification of an RPC into the lifecycle phase that issues it.
 #[derive(Clone, Copy, Debug, PartialEq, Eq)]
@@ -41,6 +44,16 @@ pub enum RpcKind {
     MarkSucceededAttempt,
     Getinfo,
     Other,
+}
+
+/// Key of C12 violations: does `amount * ppm` need more than 64 bits (while
+/// the required total itself may well fit)?
+pub fn fee_key(amount: u64, ppm: u32) -> String {
+    if (amount as u128) * (ppm as u128) > u64::MAX as u128 {
+        "fee-product-exceeds-64-bits".into()
+    } else {
+        String::new()
+    }
 }
 
 pub fn rpc_kind(method: Method, params: &Value) -> RpcKind {
@@ -124,6 +137,9 @@ pub struct Entry {
     /// This entry started on a Pending record (restart path).
     pub restart_path: bool,
     pub restart_wait_done: bool,
+    /// last time an RPC reply for this hash was delivered while no attempt had
+    /// been started (the plugin cannot have begun its final wait earlier)
+    pub last_reply_ms: u64,
     /// the stored attempt time lay in the future when the restart wait began
     pub future_attempt: bool,
     /// An RPC of this entry's lifecycle returned an injected error.
@@ -507,6 +523,7 @@ impl Oracles {
                     snap_exact: None,
                     restart_path: false,
                     restart_wait_done: false,
+                    last_reply_ms: 0,
                     future_attempt: false,
                     rpc_fault_seen: false,
                     fault_kinds: Vec::new(),
@@ -1175,7 +1192,11 @@ impl Oracles {
         let mpp_ms = w.cfg.mpp_timeout.saturating_mul(1000);
         let wall_ms = w.wall_ms();
         let mut future_attempt = false;
+        self.last_activity_ms.insert(x, w.now_ms);
         if let Some(e) = self.entries.get_mut(&x) {
+            if !e.attempt_started {
+                e.last_reply_ms = w.now_ms;
+            }
             match kind {
                 RpcKind::Fetch if e.fetch_reply.is_none() => {
                     e.fetch_reply_step = Some(w.step);
@@ -1679,11 +1700,60 @@ impl Oracles {
                 }
             }
         }
+        // ---- C12(d): no policy rejection unless the exact test (or an expiry) calls for one
+        if let Answer::Fail(m) = ans {
+            let free_at_fetch = matches!(&e.fetch_reply, Some(Ok(StoreKind::Free)) | Some(Ok(StoreKind::Absent)));
+            if m.len() >= 2
+                && m[0] == 0x20
+                && m[1] == 0x1a
+                && e.doomed.is_none()
+                && !e.either
+                && !e.order_ambiguous
+                && !e.attempt_started
+                && free_at_fetch
+                && mpp_ms != 0
+            {
+                self.violate_k(
+                    w,
+                    "C12",
+                    "rejected-although-sufficient",
+                    fee_key(e.amount_msat, w.cfg.policy_ppm),
+                    format!("set for hash {} was answered with fee-or-expiry-insufficient ({}) although every declared total passes the exact test (amount {}, base {}, ppm {}) and no relative expiry is below the policy delta", rf::hex(x), rf::hex(m), e.amount_msat, w.cfg.policy_base, w.cfg.policy_ppm),
+                );
+            }
+        }
         // ---- C11 / C12: timing of failures of never-funded sets -----------------------
         if backpressure {
             return;
         }
         let store_free_at_fetch = matches!(&e.fetch_reply, Some(Ok(StoreKind::Free)) | Some(Ok(StoreKind::Absent)));
+        if let Answer::Fail(_) = ans {
+            // A set that the exact predicate calls funded, with nothing on
+            // record and no rejection, is paid - not failed back untried.
+            if e.funded
+                && e.doomed.is_none()
+                && !e.either
+                && !e.order_ambiguous
+                && !e.timing_ambiguous
+                && !e.attempt_started
+                && !e.pay_issued
+                && !e.rpc_fault_seen
+                && store_free_at_fetch
+                && w.cfg.mpp_timeout != 0
+            {
+                if let (Some(fm), Some(left)) = (e.funded_ms, e.time_left_ms) {
+                    if fm.saturating_add(SLACK_MS) < e.created_ms.saturating_add(left) {
+                        self.violate_k(
+                            w,
+                            "C12",
+                            "funded-set-not-paid",
+                            fee_key(e.amount_msat, w.cfg.policy_ppm),
+                            format!("set for hash {} was failed back ({}) without a payment attempt although it was funded by the exact predicate at t={}ms, was not rejected and has no earlier attempt on record", rf::hex(x), super::engine::short_answer(ans), fm),
+                        );
+                    }
+                }
+            }
+        }
         if let Answer::Fail(m) = ans {
             let is_timeout = *m == rf::MSG_TEMP_TRAMPOLINE.to_vec();
             if is_timeout && e.doomed.is_none() && !e.either && !e.order_ambiguous && !e.pay_issued && !e.attempt_started {
@@ -1691,8 +1761,13 @@ impl Oracles {
                 if let (Some(ws), Some(left)) = (e.wait_start_ms, e.time_left_ms) {
                     if !e.timing_ambiguous {
                         self.hit("c11.timeout-failure-timed");
+                        // Not before: the wait cannot have begun before the set's
+                        // first HTLC was handed over. Not much later: it has begun
+                        // once the last reply the plugin needed was delivered.
+                        let earliest = e.created_ms.saturating_add(left);
+                        let ws = ws.max(e.last_reply_ms);
                         let due = ws.saturating_add(left);
-                        if !e.funded && now + SLACK_MS < due && store_free_at_fetch {
+                        if !e.funded && now + SLACK_MS < earliest && store_free_at_fetch {
                             self.violate(
                                 w,
                                 "C11",
@@ -1858,7 +1933,16 @@ impl Oracles {
                         continue;
                     }
                 }
-                if step >= fs.max(rs) {
+                // The plugin may still be talking to the node about this
+                // payment (an implementation may refresh the height or re-read
+                // the state before it pays), or be a few task hops away from
+                // its first write: the verdict waits until nothing is
+                // outstanding and a second of virtual time has passed.
+                if w.node.outstanding_rpcs().any(|(_, r)| r.hash == Some(*x) || r.hash.is_none()) {
+                    continue;
+                }
+                let t0 = e.funded_ms.unwrap_or(0).max(e.last_reply_ms);
+                if step >= fs.max(rs) && w.now_ms >= t0.saturating_add(READINESS_GRACE_MS) {
                     checked += 1;
                     late.push(*x);
                 }
@@ -1867,11 +1951,13 @@ impl Oracles {
                 self.hit("c12.readiness-violated-or-pending");
             }
             for x in late {
-                self.violate(
+                let key = self.entries.get(&x).map(|e| fee_key(e.amount_msat, w.cfg.policy_ppm)).unwrap_or_default();
+                self.violate_k(
                     w,
                     "C12",
                     "funded-set-not-paid",
-                    format!("set for hash {} is funded by the exact predicate, was not rejected and has no earlier attempt on record, but no payment attempt was started in the step that completed it", rf::hex(&x)),
+                    key,
+                    format!("set for hash {} is funded by the exact predicate, was not rejected and has no earlier attempt on record, but no payment attempt was started within {} ms although nothing was outstanding", rf::hex(&x), READINESS_GRACE_MS),
                 );
                 if let Some(e) = self.entries.get_mut(&x) {
                     e.either = true;
@@ -1886,6 +1972,7 @@ impl Oracles {
                     continue;
                 }
                 if let (Some(ws), Some(left)) = (e.wait_start_ms, e.time_left_ms) {
+                    let ws = ws.max(e.last_reply_ms);
                     if !e.funded
                         && w.now_ms > ws.saturating_add(left).saturating_add(SLACK_MS)
                         && !w.node.live(x)
